@@ -396,8 +396,9 @@ class Histogram1D(ObjectWithBinning, HistogramBase):
 
         ixbin = self.find_bin(value, **kwargs)
         if ixbin is None:
-            self.overflow = np.nan
-            self.underflow = np.nan
+            if self.keep_missed:
+                self.overflow = np.nan
+                self.underflow = np.nan
         elif ixbin == -1:
             if self.keep_missed:
                 self.underflow += weight
